@@ -386,6 +386,58 @@ fn gen_truncated_lib(st: &mut Station, cfg: &Cfg, r: &mut Rng) -> Option<Item> {
     Some(Item::new(format!("foreign:L={},r=0,truncated_{}_by_{}", cut.len(), it.label, k), "foreign", make_frame(0, cut), true))
 }
 
+/// A "family": CRC-valid frames derived from ONE encoder frame by flipping a few payload bits
+/// (mutation) and by splicing two family members at a byte boundary (crossover), all the same
+/// type and length. Consecutive near-duplicates are what a decoder that memoised anything keyed
+/// on part of the content would confuse; alone each of them has one correct decoding.
+fn gen_family(st: &mut Station, cfg: &Cfg, r: &mut Rng) -> Vec<Item> {
+    let Some(base) = gen_lib(st, cfg, r, false) else { return vec![] };
+    let n = base.bytes.len();
+    if n < 12 {
+        return vec![base];
+    }
+    let p0: Vec<u8> = base.bytes[3..n - 3].to_vec();
+    let mut members: Vec<Vec<u8>> = vec![p0.clone()];
+    let k = r.range(2, 5) as usize;
+    for _ in 0..k {
+        let parent = members[r.usize_below(members.len())].clone();
+        let child = if members.len() >= 2 && r.chance(0.4) {
+            let other = &members[r.usize_below(members.len())];
+            let cut = r.range(2, (parent.len() - 1) as u64) as usize;
+            let mut c = parent[..cut].to_vec();
+            c.extend_from_slice(&other[cut..]);
+            c
+        } else {
+            let mut c = parent.clone();
+            for _ in 0..r.range(1, 8) {
+                // never touch the 12-bit message number
+                let bit = r.range(12, (c.len() * 8 - 1) as u64) as usize;
+                c[bit / 8] ^= 0x80 >> (bit % 8);
+            }
+            if r.chance(0.3) {
+                // wipe a whole field-sized run of bytes
+                let a = r.range(2, (c.len() - 1) as u64) as usize;
+                let e = (a + r.range(1, 6) as usize).min(c.len());
+                for x in c[a..e].iter_mut() {
+                    *x = 0;
+                }
+            }
+            c
+        };
+        members.push(child);
+    }
+    let mut out = Vec::new();
+    let tag = base.label.clone();
+    // base, derived members, and the base again at the end
+    let order: Vec<usize> = (0..members.len()).chain(std::iter::once(0)).collect();
+    for (j, i) in order.iter().enumerate() {
+        let mut it = Item::new(format!("foreign:family{}of:{}", j, tag), "foreign", make_frame(0, &members[*i]), true);
+        it.epoch = 0;
+        out.push(it);
+    }
+    out
+}
+
 fn gen_foreign(cfg: &Cfg, r: &mut Rng) -> Item {
     let l = pick_l(r, cfg.small_l_bias);
     let reserved = if r.chance(0.5) { 0 } else { r.range(1, 63) as u8 };
@@ -666,6 +718,18 @@ pub fn gen_items(cfg: &Cfg, st: &mut Station, r: &mut Rng) -> Vec<Item> {
             left_in_burst -= 1;
         }
         items.push(it);
+    }
+    if cfg.w_lib + cfg.w_built > 0 && size < cfg.max_stream / 2 {
+        let mut fr = r.fork("family");
+        if fr.chance(0.12) {
+            let fam = gen_family(st, cfg, &mut fr);
+            let pos = fr.usize_below(items.len() + 1);
+            let e = if pos < items.len() { items[pos].epoch } else { epoch };
+            for (j, mut it) in fam.into_iter().enumerate() {
+                it.epoch = e;
+                items.insert(pos + j, it);
+            }
+        }
     }
     if cfg.small_l_bias {
         // C13 profile: an L=0 and an L=1 frame in every run, at random places
